@@ -299,7 +299,72 @@ func c10Nested(host, wrap, m1, hk1, k, m2, hk2 int) (tpls map[string]string, ctx
 	return
 }
 
+// c10Scale: many calls in one execution, the same embed tag executed repeatedly with changing content, inline
+// sources that look like paths, an embedded template that itself imports blocks with use.
+func c10Scale(kind, n int) core.Result {
+	tpls := map[string]string{}
+	for k, v := range c10Tpls {
+		tpls[k] = v
+	}
+	env := stick.New(&stick.MemoryLoader{Templates: tpls})
+	env.Functions["probe"] = c07Env().Functions["probe"]
+	var want strings.Builder
+	main := "main"
+	switch kind {
+	case 0: // n includes in a loop, each seeing the loop variable
+		tpls["row"] = "<{{ x }}:{{ loop.index }}>"
+		tpls["main"] = "{% for x in 1.." + itoa(n) + " %}{% include 'row' %}{% endfor %}[{{ probe('x') }}]"
+		for i := 1; i <= n; i++ {
+			want.WriteString("<" + itoa(i) + ":" + itoa(i) + ">")
+		}
+		want.WriteString("[U]")
+	case 1: // n executions of one embed tag whose override prints the loop variable
+		tpls["main"] = "{% for x in 1.." + itoa(n) + " %}{% embed 'T4' %}{% block a %}o{{ x }}{% endblock %}{% endembed %}{% endfor %}"
+		for i := 1; i <= n; i++ {
+			want.WriteString("T4[o" + itoa(i) + "|t4b]")
+		}
+	case 2: // nested: n includes each embedding
+		tpls["cell"] = "{% embed 'T4' with {'x': x * 2} only %}{% block b %}b{{ x }}{% endblock %}{% endembed %}"
+		tpls["main"] = "{% for x in 1.." + itoa(n) + " %}{% include 'cell' %};{% endfor %}"
+		for i := 1; i <= n; i++ {
+			want.WriteString("T4[t4a x=" + itoa(2*i) + "|b" + itoa(2*i) + "];")
+		}
+	case 3: // inline sources that look like paths or URLs (string loader: the name is the source), n of them
+		env = stick.New(nil)
+		srcs := []string{"a//b", "./rel/", "x/../y", "http://host//p/?q=1", " lead and trail ", "dir/", "//", "a\\b", "t.html.twig"}
+		var sb strings.Builder
+		for i := 0; i < n; i++ {
+			src := srcs[i%len(srcs)]
+			sb.WriteString("{% include '" + src + "' %}|{% embed '" + src + "' %}{% endembed %}|")
+			want.WriteString(src + "|" + src + "|")
+		}
+		main = sb.String()
+	case 4: // the embedded template imports blocks with use; the host overrides one of them
+		tpls["parts"] = "{% block pa %}PA{{ x }}{% endblock %}{% block pb %}PB{% endblock %}"
+		tpls["usr"] = "U[{% use 'parts' %}{{ block('pa') }}|{{ block('pb') }}|{% block own %}own{% endblock %}]"
+		tpls["main"] = "{% for x in 1.." + itoa(n) + " %}{% embed 'usr' %}{% block pb %}ov{{ x }}{% endblock %}{% endembed %}{% endfor %}"
+		for i := 1; i <= n; i++ {
+			want.WriteString("U[PA" + itoa(i) + "|ov" + itoa(i) + "|own]")
+		}
+	}
+	out, err, pan := tryExec(env, main, map[string]stick.Value{})
+	if pan != "" || err != nil {
+		return core.Violation("error", fmt.Sprintf("kind %d, %d calls: %v %s (main %q)", kind, n, err, pan, tail(tpls["main"], 200)))
+	}
+	if out != want.String() {
+		i := 0
+		for i < len(out) && i < want.Len() && out[i] == want.String()[i] {
+			i++
+		}
+		return core.Violation("isolation", fmt.Sprintf("kind %d, %d calls (main ...%q): output differs from the expected one at byte %d: got ...%q, want ...%q", kind, n, tail(tpls["main"], 160), i, tail(out[:min(len(out), i+40)], 80), tail(want.String()[:min(want.Len(), i+40)], 80)))
+	}
+	return core.Okay(true, itoa(len(out)))
+}
+
 func c10Run(c core.Case) core.Result {
+	if c.Fam == "scale" {
+		return c10Scale(c.N[0], c.N[1])
+	}
 	var tpls map[string]string
 	var ctx map[string]stick.Value
 	var want string
@@ -348,6 +413,17 @@ func c10Levels(tier string) []core.Level {
 							emit(core.Case{Fam: "cfg", N: []int{host, k, mode, hk}})
 						}
 					}
+				}
+			}
+		}},
+		{Name: "scale: 1..40, 99..103, 150, 300 and 1000 includes / executions of one embed tag / nested calls in one execution; inline sources that look like paths; an embedded template importing blocks with use", Gen: func(emit func(core.Case)) {
+			ns := []int{99, 100, 101, 102, 103, 150, 300, 1000}
+			for n := 1; n <= 40; n++ {
+				ns = append(ns, n)
+			}
+			for kind := 0; kind < 5; kind++ {
+				for _, n := range ns {
+					emit(core.Case{Fam: "scale", N: []int{kind, n}})
 				}
 			}
 		}},
